@@ -391,10 +391,11 @@ type c06Facts struct {
 	maxDepth      int
 	bigJolietDirs map[string]bool // directories whose Joliet records need more than one block
 	nonASCIIDirs  map[string]bool // directories holding an entry with a non-ASCII name
+	longNameDirs  map[string]bool // directories holding an entry whose Joliet record exceeds 127 bytes (name of 48+ characters)
 }
 
 func c06TreeFacts(t Tree, block int64) c06Facts {
-	f := c06Facts{bigJolietDirs: map[string]bool{}, nonASCIIDirs: map[string]bool{}}
+	f := c06Facts{bigJolietDirs: map[string]bool{}, nonASCIIDirs: map[string]bool{}, longNameDirs: map[string]bool{}}
 	bytesIn := map[string]int{}
 	for _, n := range t {
 		d := strings.Count(n.Path, "/") + 1
@@ -412,6 +413,9 @@ func c06TreeFacts(t Tree, block int64) c06Facts {
 		bytesIn[parent] += rec
 		if nameHasNonASCII(name) {
 			f.nonASCIIDirs[parent] = true
+		}
+		if len([]rune(name)) >= 48 {
+			f.longNameDirs[parent] = true
 		}
 	}
 	for d, b := range bytesIn {
@@ -439,6 +443,9 @@ func c06Cause(mode string, o ISOOpts, facts c06Facts, detail string) string {
 				}
 				if facts.nonASCIIDirs[dir] {
 					return "joliet-directory-with-a-non-ascii-name"
+				}
+				if facts.longNameDirs[dir] {
+					return "joliet-directory-with-a-name-of-48-or-more-characters"
 				}
 			}
 		}
